@@ -228,6 +228,37 @@ func c14(c *Ctx) {
 			}
 		}
 
+		checkTxnReturn := func(mi *minfo, fk string) {
+			// the method returns the transaction's error
+			ei := errResultIndex(mi.fn)
+			okRet := false
+			tbi := ir.NewTB(c.P.IsRepoFunc, c.P.FuncKey)
+			silent := ""
+			for _, r := range ir.Returns(mi.fn) {
+				vias := []*ssa.BasicBlock{nil}
+				if phi, ok := ir.Resolve(r.Results[ei]).(*ssa.Phi); ok && phi.Block() == r.Block() {
+					vias = r.Block().Preds
+				}
+				for _, via := range vias {
+					ev := ir.ResultVia(r, ei, via)
+					t := tbi.Of(ev, nil)
+					isTxn := t.Has(func(x *ir.Term) bool { return strings.HasPrefix(x.Op, "call:(*"+boltPkg+".DB).") })
+					if isTxn {
+						okRet = true
+					} else if mayBeNilError(ev, factsAt(r.Block(), via)) {
+						// success reported without the transaction having run: a silent no-op
+						silent = c.P.Pos(r.Pos())
+					}
+				}
+			}
+			if okRet && silent != "" {
+				c.R.Bad("R-results", fk+"|txn-error-returned", fk, silent, "the method can report success (nil error) on a path that never ran the transaction: the operation is silently skipped and a later load returns something else than what was saved")
+			} else if okRet {
+				c.R.Ok("R-results", fk+"|txn-error-returned", fk, c.P.Pos(mi.fn.Pos()), "the method returns the transaction's result")
+			} else {
+				c.R.Bad("R-results", fk+"|txn-error-returned", fk, c.P.Pos(mi.fn.Pos()), "the result of the transaction is not returned")
+			}
+		}
 		// ---- R-results -------------------------------------------------------------------
 		for _, k := range kinds {
 			for _, v := range []string{"Load", "Delete"} {
@@ -331,21 +362,10 @@ func c14(c *Ctx) {
 						}
 					}
 				}
-				// the method returns the transaction's error
-				ei := errResultIndex(mi.fn)
-				okRet := false
-				tbi := ir.NewTB(c.P.IsRepoFunc, c.P.FuncKey)
-				for _, r := range ir.Returns(mi.fn) {
-					t := tbi.Of(r.Results[ei], nil)
-					if t.Has(func(x *ir.Term) bool { return strings.HasPrefix(x.Op, "call:(*"+boltPkg+".DB).") }) {
-						okRet = true
-					}
-				}
-				if okRet {
-					c.R.Ok("R-results", fk+"|txn-error-returned", fk, c.P.Pos(mi.fn.Pos()), "the method returns the transaction's result")
-				} else {
-					c.R.Bad("R-results", fk+"|txn-error-returned", fk, c.P.Pos(mi.fn.Pos()), "the result of the transaction is not returned")
-				}
+				checkTxnReturn(mi, fk)
+			}
+			if mi := methods["Save"+k]; mi != nil && len(mi.ops) > 0 {
+				checkTxnReturn(mi, c.FK(mi.fn))
 			}
 			// R-data for Save
 			if mi := methods["Save"+k]; mi != nil {
